@@ -447,6 +447,30 @@ def main(argv):
             for (key, what, data) in findings[:2]:
                 ck.violation("oracle:" + key, "fsolver's solution violates the independently assembled equations: " + what,
                              dict(files=run.files(), detail=data, units=p.units, frequency=p.freq))
+            # ---- the same problem solved again on the mesh of its own solution ([PrevSoln] = the .ans just written, [PrevType] = 0:
+            # no incremental permeability, the previous solution only supplies the mesh): still a linear magnetostatic problem, so
+            # the written potentials have to satisfy the same equations
+            if (not p.harmonic and p.ptype == "planar" and not findings and stats.get("prevsoln_reuse_runs", 0) < 2
+                    and any(l["circ"] >= 0 and p.circprops[l["circ"]]["type"] == 1 and l["turns"] != 1 and p.circprops[l["circ"]]["I_re"] != 0
+                            for l in p.labels)):
+                stats["prevsoln_reuse_runs"] = stats.get("prevsoln_reuse_runs", 0) + 1
+                p2 = copy.deepcopy(p)
+                p2.prevsoln, p2.prevtype = "prev.ans", 0
+                run2 = Run(build, work, "p%d_prev" % t, p2)
+                shutil.copy(run.solution_path(), os.path.join(run2.dir, "prev.ans"))
+                if run2.mesh() == 0 and run2.solve() == 0 and os.path.exists(run2.solution_path()):
+                    sol2 = femmio.read_solution(run2.solution_path(), "m")
+                    mesh2 = fem_oracle.Mesh(p2, sol2)
+                    A2 = np.array([v[0] for v in mesh2.vals])
+                    K2, f2, fixed2, _ = fem_oracle.magnetostatic_system(mesh2)
+                    fnd2, res2 = fem_oracle.check_solution(K2, f2, A2, fixed2, {}, [], None, tol=1e-7)
+                    if fnd2:
+                        ck.violation("prevsoln-reuse", "the same linear problem solved on the mesh of its own solution ([PrevSoln], [PrevType] = 0) violates "
+                                     "the equations its first solution satisfies: " + fnd2[0][1] + " (largest |A| %.6g, first solution %.6g)"
+                                     % (float(np.abs(A2).max()), float(np.abs(A).max())), dict(files=run2.files(), units=p.units))
+                else:
+                    ck.violation("prevsoln-reuse:solver-failed", "fsolver failed (rc=%s) on a solved problem that names its own solution as previous solution "
+                                 "with [PrevType] = 0: %s" % (run2.solve_rc, run2.solve_out[-300:]), dict(files=run2.files()))
     finally:
         shutil.rmtree(work, ignore_errors=True)
     ck.notes["input_distribution"] = stats
